@@ -37,11 +37,14 @@ logger = get_logger(__name__)
 
 try:
     import boto3
-    from botocore.exceptions import ClientError
+    from botocore.exceptions import BotoCoreError, ClientError
 
     BOTO3_AVAILABLE = True
 except ImportError:
     BOTO3_AVAILABLE = False
+
+    class BotoCoreError(Exception):  # type: ignore[no-redef]
+        """Placeholder so `except BotoCoreError` is valid without botocore."""
 
 
 class StorageBackend(ABC):
@@ -496,13 +499,19 @@ class S3FileStream:
         self._reopen = reopen
         self._size = size
         self._pos = 0
+        self._closed = False
 
     def read(self, n: Optional[int] = None) -> bytes:
+        if self._closed:
+            raise ValueError("I/O operation on closed S3 stream")
         try:
             data: bytes = self.body.read(n)
-        except Exception:
+        except (BotoCoreError, OSError) as e:
+            # Transport failure while the body streams (connection reset, read
+            # timeout, truncated response). Anything else is not ours to mask.
             if self._reopen is None:
                 raise
+            logger.warning(f"S3 stream failed at offset {self._pos} ({e}); resuming")
             data = self._resume(n)
         self._pos += len(data)
         return data
@@ -515,13 +524,26 @@ class S3FileStream:
 
         def again() -> bytes:
             body = self._reopen(self._pos)
-            chunk: bytes = body.read(n)
+            try:
+                chunk: bytes = body.read(n)
+            except BaseException:
+                self._close_quietly(body)
+                raise
+            self._close_quietly(self.body)  # the broken one
             self.body = body
             return chunk
 
         return with_s3_retry(again, "S3 resume streaming read")
 
+    @staticmethod
+    def _close_quietly(body: Any) -> None:
+        try:
+            body.close()
+        except Exception:
+            pass
+
     def close(self) -> None:
+        self._closed = True
         self.body.close()
 
     def __enter__(self) -> "S3FileStream":
@@ -736,16 +758,23 @@ class S3StorageBackend(StorageBackend):
 
         key = self._get_s3_key(path)
 
+        opened: Dict[str, Any] = {}
+
         def reopen_at(offset: int) -> Any:
-            """Body of the same object from `offset` on (resume of a broken stream)."""
-            response = self.s3.get_object(
-                Bucket=self.bucket, Key=key, Range=f"bytes={offset}-"
-            )
+            """Body of the SAME object version from `offset` on (resume of a
+            broken stream). If-Match pins the version the stream started on: an
+            object overwritten in between must not be spliced into it (412 is
+            permanent and surfaces)."""
+            kwargs: Dict[str, Any] = {"Range": f"bytes={offset}-"}
+            if opened.get("etag"):
+                kwargs["IfMatch"] = opened["etag"]
+            response = self.s3.get_object(Bucket=self.bucket, Key=key, **kwargs)
             return response["Body"]
 
         def open_op() -> Any:
             try:
                 response = self.s3.get_object(Bucket=self.bucket, Key=key)
+                opened["etag"] = response.get("ETag")
                 # Cast to BinaryIO because S3FileStream implements the necessary protocol
                 # but is not explicitly inheriting from io.BytesIO/BinaryIO
                 return S3FileStream(
